@@ -27,6 +27,13 @@ GUARDS = [
     ("MC_Random_guard_no_empty_guard_LawFactories.cfg", "LawFactories"),
     ("MC_Random_guard_rewind_LawCursorMonotone.cfg", "LawCursorMonotone"),
 ]
+# hidden-state model (draws interleaved with reset()): MCRandomState.tla
+STATE_GUARDS = [
+    ("MC_RandomState_guard_reset_keeps_cache_LawResetFresh.cfg", "LawResetFresh"),
+    ("MC_RandomState_guard_reset_keeps_cache_LawTransparentH.cfg", "LawTransparentH"),
+    ("MC_RandomState_guard_reset_keeps_cache_LawResetClears.cfg", "LawResetClears"),
+    ("MC_RandomState_guard_draw_drops_cache_LawTransparentH.cfg", "LawTransparentH"),
+]
 PER_CHUNK = 40000
 JUDGES = min(vlib.NCPU, 12)
 
@@ -129,6 +136,10 @@ def classes_of(ctx, rec):
         ctx.count_class((f, rec["eng"], rec["R"], rec.get("dist")))
     elif f == "raw":
         ctx.count_class((f, rec["eng"]))
+    elif f == "session":
+        ops = [o["op"] for o in rec["ops"]]
+        before = ops.index("reset") if "reset" in ops else -1
+        ctx.count_class((f, rec["dist"], rec["R"], rec["eng"], rec["vp"], before, tuple(sorted(set(ops))), len(ops) < len(rec["opcodes"])))
     else:
         ctx.count_class((f, rec.get("E")))
 
@@ -145,7 +156,7 @@ def function_name(rec, why):
         return "generator_" + rec["eng"]
     if f == "engine":
         return "variate"
-    if f == "real":
+    if f in ("real", "session"):
         return rec["dist"]
     return f
 
@@ -227,7 +238,15 @@ def model_checks(ctx):
         if not hit:
             raise vlib.Infra("vacuity guard: %s did not violate %s" % (cfg, inv))
         return {"cfg": cfg, "violates": inv}
-    ctx.extra["vacuity_guards"] = vlib.parallel(guard, GUARDS, workers=5)
+    vlib.tlc_mc(ctx, "MCRandomState", "MC_RandomState.cfg", workers=6, timeout=3000, tag="MCRandomState", xmx="2g")
+
+    def sguard(g):
+        cfg, inv = g
+        r = vlib.tlc("MCRandomState", cfg, workers=2, timeout=1500, tag="MCRandomState_" + cfg, xmx="1500m")
+        if inv not in r.invariant_violated:
+            raise vlib.Infra("vacuity guard: %s did not violate %s" % (cfg, inv))
+        return {"cfg": cfg, "violates": inv}
+    ctx.extra["vacuity_guards"] = vlib.parallel(guard, GUARDS, workers=5) + vlib.parallel(sguard, STATE_GUARDS, workers=4)
 
 
 def run(ctx):
@@ -263,7 +282,8 @@ def run(ctx):
         "the wrapped standard distribution (libstdc++ of g++ 12) is the reference by the wording of the property; its algorithm is not specified, its logged runs are",
         "engine seam: a scripted URBG with min()=0, max()=15 that throws when exhausted stands for 'every seed'; the provided engines minstd_rand / mt19937 are compared with their std:: pairs on a seed sample only",
         "real-valued distributions (uniform_real, normal): transparency (bit patterns) on the provided engines only; bounds are not stated for them",
-        "basic::operator()(Rng&, param_type const&) and basic::param() are not driven (the former does not compile when instantiated - it passes two arguments to make_result; reported in docs/notes_C20.md)",
+        "basic::param(), basic::operator()(Rng&, param_type const&) and the operation sessions (reset, param, min/max, ==, <<) are driven only if a probe using them compiles (they did not before commit a504ed0); coverage.param_api_driven says whether they were",
+        "basic's operator>> cannot be instantiated (its friend declaration does not match the defined operator) and is not driven; reported in docs/notes_C20.md",
         "memory errors inside the driven calls are only OBSERVED via ASan/UBSan and libstdc++ assertions",
     ]
 
